@@ -48,6 +48,7 @@ type ClientCfg struct {
 	Accept      []string // custom algorithms in registration order (gzip is registered first by the library)
 	CompressMin int
 	ReadMax     int
+	Hedge       bool // a client interceptor opens a second (unused) connection per streaming call, as hedging interceptors do
 }
 
 // ErrPlan is an error a handler returns.
